@@ -1,5 +1,79 @@
-import TakVerif.Spec.Tak
+import TakVerif.Proofs.Reach
+import TakVerif.Proofs.Examples
+
+/-! C01 — applying a move succeeds iff it is legal Tak and yields the exact successor.
+
+`Tak.Pos.apply` is the construct-for-construct model of `MovePreallocated` (tied to the Go code by the
+differential check), `Spec.step` the list-level rule book, `Spec.abs` the abstraction, `Spec.decode` the reading
+of a raw `Move` value.  `Tak.WF` is the well-formedness invariant (see `Proofs/WF.lean`), `Tak.StackLimit` the
+documented 64-piece representation limit, `Tak.AnalyzeTotal` the flood-fuel lemma proved by the roads package
+(`Roads.analyze_ne_none`, unconditional) and taken as a hypothesis here. -/
 namespace C01
-/-- placeholder until the real theorems land: decoding an invalid type code is `invalid` -/
-theorem step_invalid (s : Spec.State) : Spec.step s .invalid = none := rfl
+open Tak
+
+/-- **No move value makes `MovePreallocated` panic** — for EVERY position (well-formed or not), every raw move
+(any `x`, `y`, any type code, any 32-bit `Slides` word) and any basis table.  The model's only guarded panic
+site (`Top` of an empty origin) is unreachable because the mover's bit has just been tested. -/
+theorem move_never_panics (basis : Array W) (p : Pos) (m : Move) (site : String) :
+    p.apply basis m ≠ .error (.panic site) := fun h => apply_err h
+
+/-- … and none makes it hang, given that `analyze` has enough flood fuel (`AnalyzeTotal`). -/
+theorem move_never_hangs (hA : AnalyzeTotal) (basis : Array W) (p : Pos) (m : Move) (site : String) :
+    p.apply basis m ≠ .error (.hang site) := fun h => by
+  obtain ⟨p', hp'⟩ := apply_err h
+  exact hA p' hp'
+
+/-- hence every raw move is either applied or rejected with a returned error -/
+theorem move_total (hA : AnalyzeTotal) (basis : Array W) (p : Pos) (m : Move) :
+    (∃ q, p.apply basis m = .ok q) ∨ (∃ why, p.apply basis m = .error (.illegal why)) := by
+  cases h : p.apply basis m with
+  | ok q => exact .inl ⟨q, rfl⟩
+  | error e =>
+    cases e with
+    | illegal w => exact .inr ⟨w, rfl⟩
+    | panic s => exact absurd h (move_never_panics basis p m s)
+    | hang s => exact absurd h (move_never_hangs hA basis p m s)
+
+example : ∃ q, Ex.mid.apply Ex.basis ⟨1, 0, 7, 1⟩ = .ok q := Ex.mid_slide_ok
+/-- an off-board origin and a damaged slide word are rejected, not executed -/
+example : Ex.mid.apply Ex.basis ⟨-1, 5, 6, 0x00f00012#32⟩ = .error (.illegal "off board") := by rfl
+
+/-- the statement of `move_refines` -/
+def move_refines_statement : Prop :=
+  ∀ (basis : Array W) (p : Pos) (m : Move), AnalyzeTotal → WF basis p → m.type ≠ Facts.mtPass → StackLimit p m →
+    match p.apply basis m with
+    | .error _ => Spec.step (Spec.abs p) (Spec.decode m) = none
+    | .ok q => Spec.step (Spec.abs p) (Spec.decode m) = some (Spec.abs q) ∧ WF basis q
+
+/-- **The model refines the rule book, and well-formedness is preserved.**  For every well-formed position, every
+raw move value other than the internal pass (all type codes, all coordinates, all slide words): if the model
+rejects, the rule book rejects; if the model accepts with successor `q`, the rule book accepts with successor
+exactly `abs q` (every stack's contents and order, reserves, ply) and `q` is well-formed again (incl. its hash
+field).  Since both sides are functions, this is "succeeds iff legal".  `StackLimit` only constrains moves the
+rule book accepts (result stacks ≤ 64 pieces); rejections need no such assumption. -/
+theorem move_refines : move_refines_statement :=
+  fun _ _ m hA hwf hp hlim => move_refines_core hA hwf m hp hlim
+
+/-- `New` builds a well-formed position for every accepted configuration (sizes 3..8, default or custom counts) -/
+theorem new_wf (basis : Array W) (cfg : Cfg) (p : Pos) (h : Pos.new cfg = .ok p) : WF basis p :=
+  Tak.new_wf basis h
+
+/-- along any sequence of non-pass moves (with the 64-piece limit at each step) from a well-formed position,
+the model and the rule book stay in step and every position met is well-formed -/
+theorem reachable_wf (hA : AnalyzeTotal) (basis : Array W) (p : Pos) (ms : List Move) (hwf : WF basis p)
+    (hok : MovesOK basis p ms) :
+    match p.applyAll basis ms with
+    | .error _ => stepAll (Spec.abs p) (ms.map Spec.decode) = none
+    | .ok q => stepAll (Spec.abs p) (ms.map Spec.decode) = some (Spec.abs q) ∧ WF basis q :=
+  applyAll_refines hA ms hwf hok
+
+/-- instance of ALL hypotheses of `move_refines` (other than `AnalyzeTotal`): the 5×5 position after a1 e5 b1 b2 is
+well-formed, b1+ (type 7 = SlideUp, one piece, capturing b2) is not a pass, satisfies the stack limit, and is
+accepted; its successor differs from the position it came from -/
+example : WF Ex.basis Ex.mid ∧ (⟨1, 0, 7, 1⟩ : Move).type ≠ Facts.mtPass ∧ StackLimit Ex.mid ⟨1, 0, 7, 1⟩ ∧
+    (∃ q, Ex.mid.apply Ex.basis ⟨1, 0, 7, 1⟩ = .ok q) :=
+  ⟨Ex.mid_wf, by decide, Ex.mid_slide_limit, Ex.mid_slide_ok⟩
+
+example : WF Ex.basis Ex.start5 := Tak.new_wf Ex.basis Ex.start5_ok
+
 end C01
